@@ -706,6 +706,108 @@ pub fn itemize_cases(o: &mut Outcome, rng: &mut Rng, thorough: bool) {
     o.probes.push(serde_json::json!({"id": "LW1", "fails": ans[0] != "ok", "what": "the last item of a list followed by a block comment and then a line comment whose text ends with the list separator (`b /* y */ // last,` without a separator after `b`): extract_post_comment takes the comment's final `,` for the trailing separator and strips it (lists.rs:644-647 tests `ends_with(separator)` on the text, not on the code): the comment loses a character", "detail": format!("post_comment = {:?}, oracle = {}", post, ans[0])}));
 }
 
+
+// ---------------------------------------------------------------------------------------------
+// The struct-literal helpers: struct_lit_shape, struct_lit_tactic, shape_for_tactic, struct_lit_formatting.
+
+fn enc_shape(x: (usize, usize, usize, usize)) -> String {
+    format!("{}:{}:{}:{}", x.0, x.1, x.2, x.3)
+}
+fn enc_oshape(x: Option<(usize, usize, usize, usize)>) -> String {
+    x.map(enc_shape).unwrap_or_else(|| "none".into())
+}
+
+pub fn struct_lit_cases(o: &mut Outcome, rng: &mut Rng, thorough: bool) {
+    let t0 = std::time::Instant::now();
+    let mk = |visual: bool, ts: usize, mw: usize, slw: usize, single: bool, tc: u8| -> Config {
+        let mut k = Config::default();
+        k.override_value("indent_style", if visual { "Visual" } else { "Block" });
+        k.override_value("tab_spaces", &ts.to_string());
+        k.override_value("max_width", &mw.to_string());
+        k.override_value("struct_lit_width", &slw.to_string());
+        k.override_value("struct_lit_single_line", if single { "true" } else { "false" });
+        k.override_value("trailing_comma", ["Always", "Never", "Vertical"][tc as usize]);
+        k
+    };
+    // struct_lit_shape: small numbers exhaustively (the arithmetic), both indent styles
+    let n = if thorough { 6 } else { 4 };
+    for visual in [false, true] {
+        for ts in [0usize, 4] {
+            for (mw, slw) in [(10usize, 3usize), (6, 18), (100, 18)] {
+                let k = mk(visual, ts, mw, slw, true, 2);
+                for w in 0..=n {
+                    for b in 0..=2 {
+                        for a in 0..=2 {
+                            for off in 0..=2 {
+                                for pw in 0..=n {
+                                    for sw in 0..=2 {
+                                        let s = (w * 2, b * 4, a, off * 3);
+                                        let r = hl::struct_lit_shape(s, &k, pw, sw);
+                                        let ans = match r {
+                                            None => "nocontext".to_string(),
+                                            Some(Err(e)) => format!("err:{}", e),
+                                            Some(Ok((h, v))) => format!("{}/{}", enc_oshape(h), enc_shape(v)),
+                                        };
+                                        o.push("corr", "lists.sl_shape", format!("lists.sl_shape {} {} {} {} {} {} {} {} {} {}", s.0, s.1, s.2, s.3, pw, sw, if visual { "v" } else { "b" }, k.tab_spaces(), k.max_width(), k.struct_lit_width()), ans, "exhaustive".into(), true);
+                                    }
+                                }
+                            }
+                        }
+                    }
+                }
+            }
+        }
+    }
+    // struct_lit_tactic on the fixed lists and singles, shape_for_tactic, struct_lit_formatting
+    let lists: Vec<Vec<hl::Item>> = fixed_item_lists().into_iter().chain(item_universe(1).into_iter().step_by(3).map(|x| vec![x])).collect();
+    for visual in [false, true] {
+        for single in [false, true] {
+            let k = mk(visual, 4, 100, 18, single, 2);
+            for items in &lists {
+                let tw = hl::total_width(items).1;
+                for h in [None, Some((0usize, 4usize, 0usize, 0usize)), Some((tw.saturating_sub(1), 4, 0, 0)), Some((tw + 2 * items.len(), 4, 0, 0)), Some((18, 0, 2, 2))] {
+                    let r = hl::struct_lit_tactic(h, &k, items);
+                    o.push("corr", "lists.sl_tactic", format!("lists.sl_tactic {} {} {} {}", enc_oshape(h), if visual { "v" } else { "b" }, single as u8, enc_items(items)), r.map(enc_dtactic).unwrap_or_else(|| "nocontext".into()), "exhaustive".into(), !items.is_empty());
+                }
+            }
+        }
+    }
+    for t in [(0u8, 0usize), (1, 0), (2, 0), (3, 2)] {
+        for h in [None, Some((7usize, 4usize, 1usize, 2usize))] {
+            let v = (30usize, 8usize, 0usize, 0usize);
+            let r = guard(|| hl::shape_for_tactic(t, h, v));
+            o.push("corr", "lists.shape_for_tactic", format!("lists.shape_for_tactic {} {} {}", enc_dtactic(t), enc_oshape(h), enc_shape(v)), r.map(enc_shape).unwrap_or_else(|| "panic".into()), "exhaustive".into(), true);
+        }
+        for visual in [false, true] {
+            for tc in 0..3u8 {
+                for force in [false, true] {
+                    let k = mk(visual, 4, 100, 18, true, tc);
+                    let s = (20usize, 4usize, 1usize, 3usize);
+                    let r = hl::struct_lit_formatting(s, t, &k, force);
+                    let ans = r.map(|f| format!("{}|{}|{}|{}|{}|{}|{}|{}|{}", enc_dtactic(f.tactic), enc_str(&f.separator), ["a", "n", "v"][f.trailing_separator as usize], ["f", "b"][f.separator_place as usize], enc_shape(f.shape), f.ends_with_newline as u8, f.preserve_newline as u8, f.nested as u8, f.align_comments as u8)).unwrap_or_else(|| "nocontext".into());
+                    o.push("corr", "lists.sl_formatting", format!("lists.sl_formatting {} {} {} {} {}", enc_shape(s), enc_dtactic(t), if visual { "v" } else { "b" }, ["a", "n", "v"][tc as usize], force as u8), ans, "exhaustive".into(), true);
+                }
+            }
+        }
+    }
+    // random larger numbers for the shape arithmetic
+    for _ in 0..(if thorough { 20000 } else { 2000 }) {
+        let visual = rng.chance(1, 2);
+        let (ts, mw, slw) = (rng.below(9), rng.below(140), rng.below(40));
+        let k = mk(visual, ts, mw, slw, true, 2);
+        let s = (rng.below(120), rng.below(5) * 4, rng.below(12), rng.below(30));
+        let (pw, sw) = (rng.below(s.0 + 6), rng.below(6));
+        let r = hl::struct_lit_shape(s, &k, pw, sw);
+        let ans = match r {
+            None => "nocontext".to_string(),
+            Some(Err(e)) => format!("err:{}", e),
+            Some(Ok((h, v))) => format!("{}/{}", enc_oshape(h), enc_shape(v)),
+        };
+        o.push("corr", "lists.sl_shape", format!("lists.sl_shape {} {} {} {} {} {} {} {} {} {}", s.0, s.1, s.2, s.3, pw, sw, if visual { "v" } else { "b" }, k.tab_spaces(), k.max_width(), k.struct_lit_width()), ans, "random".into(), true);
+    }
+    o.count_n("lists:struct-lit-ms", t0.elapsed().as_millis() as u64);
+}
+
 /// Standalone: `rfverif lists --tier quick|thorough --seed N --out DIR`
 pub fn run(tier: &str, seed: u64, out: &std::path::Path) -> i32 {
     let mut o = Outcome::new("LISTS", tier, seed);
@@ -715,6 +817,7 @@ pub fn run(tier: &str, seed: u64, out: &std::path::Path) -> i32 {
     cases(&mut o, &mut rng, tier == "thorough");
     if std::env::var("LISTS_ITEMIZE").map(|v| v != "0").unwrap_or(true) {
         itemize_cases(&mut o, &mut rng, tier == "thorough");
+        struct_lit_cases(&mut o, &mut rng, tier == "thorough");
     }
     std::panic::set_hook(prev);
     o.finish(out, jobs())
